@@ -460,7 +460,10 @@ def r5_to_ron(ctx):
     good = len(tw) == 1
     if good:
         e = fn.body.expr_of_op(tw[0][1]["args"][1])
-        good = any(x[0] == "call" and x[1] == "mahf::configuration::Configuration::heuristic" and origin(x[2][0])[0] == ("arg", 1) for x in subexprs(e))
+        # what is serialised is the configuration's own root component: `self.heuristic()` or the field itself, through accessors only
+        from kinds import ACCESS_CALLS as _AC
+        lf_, cs_, fs_ = origin(e)
+        good = lf_ == ("arg", 1) and all(c in _AC or c == "heuristic" for c in cs_) and ("heuristic" in cs_ or fs_[:1] == [0])
         cfg = fn.body.expr_of_op(tw[0][1]["args"][2])
         good = good and any(x[0] == "call" and (x[1] or "").endswith("struct_names") for x in subexprs(cfg))
     ctx.check(good, "C15.R5", fn.key, "serialises-own-heuristic", "to_ron does not serialise self.heuristic() with the configured PrettyConfig", loc=fn.loc())
